@@ -281,6 +281,8 @@ func (e *Event) String() string {
 		return ""
 	case EvLookup:
 		return ""
+	case EvAssert:
+		return ""
 	}
 	return e.Kind.String()
 }
